@@ -6,7 +6,7 @@ From Molt Require Import Model.Base Model.ListSyn Model.Float Model.Value Model.
 Local Open Scope N_scope.
 
 Definition c14_prelude : str :=
-  lit "proc pa2 {a b} {}; set nonint abc; proc rce {} {return -code error rmsg}; proc rcei {} {return -code error -errorcode ECODE -errorinfo {given info} imsg}; proc rcec {} {return -code error -errorcode ONLYCODE cmsg}; proc rceo {} {return -errorcode OCODE -code error omsg}; proc rceb {} {return -code error}".
+  lit "proc pa2 {a b} {}; set nonint abc; proc rce {} {return -code error rmsg}; proc rcei {} {return -code error -errorcode ECODE -errorinfo {given info} imsg}; proc rcec {} {return -code error -errorcode ONLYCODE cmsg}; proc rceo {} {return -errorcode OCODE -code error omsg}; proc rceb {} {return -code error}; proc rcel {} {set errorInfo mine; set errorCode mine; catch {throw LCODE lmsg} lr lo; return -code error -errorcode [dict get $lo -errorcode] -errorinfo [dict get $lo -errorinfo] $lr}".
 
 Definition gvar (st : interp) (n : string) : term :=
   match st_scalar st (lit n) with Ok v => TStr (as_str v) | _ => TStr (lit "<unset>") end.
@@ -57,8 +57,8 @@ Definition procs_in_trace (info : str) : list str :=
 Definition first_line (info : str) : str := hd [] (split_lines info []).
 
 (* the procedures the error passes through, innermost first *)
-Definition expected_procs (frames : list str) (through_source : bool) : list str :=
-  (if through_source then [lit "rcei"] else []) ++
+Definition expected_procs (frames : list str) (through_source : bool) (through_name : str) : list str :=
+  (if through_source then [through_name] else []) ++
   rev (flat_map (fun p => if str_eqb (snd p) (lit "proc") || str_eqb (snd p) (lit "rproc") then [lit "q" ++ show_Z (Z.of_nat (fst p))] else [])
                 (combine (seq 0 (length frames)) frames)).
 
@@ -66,7 +66,8 @@ Definition trace_ok (c : term) (info : str) : bool :=
   let e := term_nth c 1 in
   str_eqb (first_line info) (term_str (term_nth e 2))
   && term_eqb (TStrs (procs_in_trace info))
-       (TStrs (expected_procs (term_strs (term_nth c 2)) (Z.eqb (term_int (term_nth e 3)) 1))).
+       (TStrs (expected_procs (term_strs (term_nth c 2)) (Z.eqb (term_int (term_nth e 3)) 1)
+                 (if str_eqb (term_str (term_nth e 0)) (lit "lmsg") then lit "rcel" else lit "rcei"))).
 
 (* host channels: (("Err" 1 msg level (code info)) errorCode errorInfo) all describe the error *)
 Definition host_ok (c : term) (h : term) : bool :=
@@ -127,7 +128,7 @@ Definition c14_spec_ok (c obs : term) : bool :=
         end
   | _ => false
   end.
-(* Known class (known_findings.json, finding D32): an error that consists in a script or body TEXT
+(* Known class (known_findings.json, finding D35): an error that consists in a script or body TEXT
    failing to parse takes an early exit of eval_value that skips the error bookkeeping - at top
    level (or as the body handed to catch) it is not recorded in errorInfo / errorCode, and a
    procedure whose body does not parse is not named by a "(procedure ...)" line.  Recognised by the
